@@ -202,7 +202,7 @@ func cmdCheck(args []string) int {
 		}
 		params["seed"] = seed
 		cfg := &interp.Config{
-			Prog: l.prog, HarnessPkgs: harnessPkgs(l), InitPkgs: l.initPkgs, Workers: *workers,
+			Prog: l.prog, HarnessPkgs: harnessPkgs(l), InitPkgs: l.initPkgs, RepoPrefix: repoMod, Workers: *workers,
 			SolverArgv: solverArgv(*solver), TimeoutMs: tmo, MaxPaths: ts.MaxPaths,
 			Budget: time.Duration(ts.BudgetS) * time.Second, Params: params, SampleEvery: 97, MaxSteps: hs.MaxSteps, RunCmdInits: hs.CmdInits, FreshInits: hs.CmdInits, KeepObs: hs.Kind == "deterministic",
 		}
